@@ -22,6 +22,32 @@ CHECKS = {
     },
 }
 
+CHECKS["C09"] = {
+    "level": "other",
+    "text": ("Decides the structural clauses of the two tools on every run: the stored value is "
+             "cast(post(compute_full(pre(signal)))) with each stage built from its own option in list order (only a matrix "
+             "without frames bypasses post-processing), options.<x> reads exist in the tool's parser, family-typed attribute "
+             "chains exist, the only exclusions are the documented ones, one shared path-or-inline JSON/YAML parser, seed "
+             "provenance (given --seed reaches the RNG first, no hash/id/time in the per-item seed), exhaustive NumPy->torch "
+             "conversion. Does NOT decide numerical equality of stored and library features; that part of the property "
+             "quantifies over signal values and is out of reach of static analysis."),
+    "design_ref": "DESIGN.md §3 C09",
+    "note": NOTE_COMMON + "pydrobert.kaldi / torch I/O are trusted to store what they are given.",
+    "technique": "static analysis: forward substitution of the write's def-use chain into a pipeline normal form, argparse-dest and family attribute tables, guard enumeration, seed provenance",
+}
+CHECKS["C10"] = {
+    "level": "other",
+    "text": ("Crash points are not enumerated (no static argument can); instead the durability/ordering discipline that makes "
+             "the property hold is decided on the CFG: save dominates acknowledge, every acknowledge is flushed before the "
+             "next iteration and exit, append+read mode, rewind and filter before the dataset is built, per-item seed free of "
+             "manifest-filtered positions (flow-sensitive taint through tool function and dataset class), re-seed before any "
+             "random draw, order-preserving DataLoader. Each is a necessary condition: breaking it breaks the property for "
+             "some kill point / resume."),
+    "design_ref": "DESIGN.md §3 C10",
+    "note": NOTE_COMMON + "Atomicity of torch.save and fsync-level durability are not decided (a half-written file is never listed, by save-before-ack).",
+    "technique": "static analysis: CFG dominance / must-flush path rules and flow-sensitive taint (manifest-filtered membership -> position) of the per-item seed",
+}
+
 _PENDING = "check not built yet in this session (static-analysis clauses planned in DESIGN.md §3)"
 NOT_APPLICABLE = {("C%02d" % i): _PENDING for i in range(1, 21) if ("C%02d" % i) not in CHECKS}
 
